@@ -14,6 +14,7 @@ from typing import (
     Dict,
     cast,
     FrozenSet,
+    AbstractSet,
 )
 
 import icontract._represent
@@ -58,6 +59,7 @@ def kwargs_from_call(
     kwdefaults: Dict[str, Any],
     args: Tuple[Any, ...],
     kwargs: Dict[str, Any],
+    positional_only: Optional[AbstractSet[str]] = None,
 ) -> MutableMapping[str, Any]:
     """
     Inspect the input values received at the wrapper for the actual function call.
@@ -66,6 +68,12 @@ def kwargs_from_call(
     :param kwdefaults: default argument values of the original function
     :param args: arguments supplied to the call
     :param kwargs: keyword arguments supplied to the call
+    :param positional_only:
+        names of the positional-only parameters of the original function.
+
+        A keyword argument with such a name can not refer to the parameter: it is captured by
+        the variable keyword parameter (``**kwargs``) of the function and is available to
+        the conditions only through ``_KWARGS``.
     :return: resolved arguments as they would be passed to the function
     """
     # (Marko Ristin, 2020-12-01)
@@ -87,6 +95,9 @@ def kwargs_from_call(
     # a keyword argument captured by ``**kwargs`` which happens to have the same name as
     # a positional-only parameter.
     for key, val in kwargs.items():
+        if positional_only is not None and key in positional_only:
+            continue
+
         resolved_kwargs[key] = val
 
     for i, func_arg in enumerate(args):
@@ -727,6 +738,12 @@ def decorate_with_checker(func: CallableT) -> CallableT:
         )
     ]
 
+    positional_only = frozenset(
+        param.name
+        for param in sign.parameters.values()
+        if param.kind == inspect.Parameter.POSITIONAL_ONLY
+    )
+
     # Determine the default argument values
     kwdefaults = resolve_kwdefaults(sign=sign)
 
@@ -772,6 +789,7 @@ def decorate_with_checker(func: CallableT) -> CallableT:
                     kwdefaults=kwdefaults,
                     args=args,
                     kwargs=kwargs,
+                    positional_only=positional_only,
                 )
 
                 type_error = _assert_resolved_kwargs_valid(
@@ -848,6 +866,7 @@ def decorate_with_checker(func: CallableT) -> CallableT:
                     kwdefaults=kwdefaults,
                     args=args,
                     kwargs=kwargs,
+                    positional_only=positional_only,
                 )
 
                 type_error = _assert_resolved_kwargs_valid(
